@@ -420,6 +420,13 @@ pub fn replay(v: &Value, path: &str, quiet: bool) -> i32 {
         }
         Outcome::Held => {
             if !quiet {
+                if std::env::var("GE_REPLAY_LOG").is_ok() {
+                    if let Some(log) = r.raw["log"].as_array() {
+                        for l in log {
+                            println!("  | {}", l.as_str().unwrap_or("").chars().take(600).collect::<String>());
+                        }
+                    }
+                }
                 println!("replay {}: no violation on the current tree", path);
             }
             0
